@@ -880,6 +880,23 @@ def m_set_op(I, state, frame, bi, t, args, span):
     return [(BOOL_TOP, state)]
 
 
+@model("std::collections::HashMap::<K, V, S, A>::entry")
+def m_map_entry(I, state, frame, bi, t, args, span):
+    """`map.entry(k)` is (the first half of) an insertion under k: recorded as one, whatever follows (or_insert, or_default, ...)"""
+    a = args[0]
+    k = str_of(I, state, args[1]) or (deref(I, state, args[1]) if args[1][0] == "ref" else args[1])
+    sf = self_field_of(I, a)
+    if sf is not None:
+        I.rec.put("map_op", I.sitekey(frame, bi, -1),
+                  dict(fn=frame.body.name, bb=bi, span=span, op="insert", target=("self", sf), key=k, value=None, stored_keys=None,
+                       stack=frame.stack, via_entry=True, **ctx(I, state)))
+        if sf not in (I.layout.history_field,):
+            pass
+    elif a[0] == "ref":
+        coll_add(I, state, a, TOP, k=k if (k is not None and k[0] in ("str", "key")) else None)
+    return [(TOP, state)]
+
+
 def hist_value(keystr):
     return string([("hist", keystr[1] if keystr is not None and keystr[0] == "str" else frozenset([("unknown",)]))])
 
